@@ -1,0 +1,8 @@
+//go:build verif
+
+// Contracts for the deductive verifier in /verif (gowp).  Comment-only; tag "verif".
+package registry
+
+// The registry is the documented exception: Register/Enable/Disable mutate the list of
+// scripts applied to NEW runtimes (under their own discipline, not synchronised).
+//@ globals_readonly[C20] except=registry
